@@ -27,6 +27,8 @@ func zzWFromSignMag(neg bool, hi, lo uint64) zzW {
 // H10.2: Mul is exact and canonical for |x|,|y| < 2^33 (both sides of the int32 switch).
 //
 //verif:unwind 40
+//verif:config generic posix64 posix64-nommap
+//verif:configq generic posix64
 func zzH10_mul() {
 	B := zzParam("mul_bits", 33, 33)
 	x, xn, xm := zzSymInt1("x", B)
@@ -58,6 +60,8 @@ func zzFloorDivRef(x, y int64) (q zzW, r zzW) {
 // reference written independently on magnitudes with unsigned division), both arms.
 //
 //verif:unwind 40
+//verif:config generic posix64 posix64-nommap
+//verif:configq generic posix64
 func zzH10_divmod() {
 	xv, yv := zzI64("x"), zzI64("y")
 	zzAssume(yv != 0)
@@ -113,6 +117,8 @@ func zzH10_binaryDivZero() {
 // H10.4: conversions out of Int are exact with correct ok flags; failed conversions leave the target untouched.
 //
 //verif:unwind 40
+//verif:config generic posix64 posix64-nommap
+//verif:configq generic posix64
 func zzH10_conv() {
 	B := zzParam("conv_bits", 66, 70)
 	x, xv := zzSymInt("x", B)
@@ -194,6 +200,8 @@ func zzH10_asint() {
 // Reference for negative big operands uses the 128-bit two's complement value.
 //
 //verif:unwind 40
+//verif:config generic posix64 posix64-nommap
+//verif:configq generic posix64
 func zzH10_bitwise() {
 	B := zzParam("bitwise_bits", 40, 66)
 	x, xv := zzSymInt("x", B)
